@@ -188,7 +188,12 @@ var headerReg = regexp.MustCompile(`\[([0-9a-f]+)\]`)
 
 func IsHeader(line string) bool { return headerReg.MatchString(line) }
 
-func Quote(a, b string) string { return "\"" + a + "\" -> \"" + strings.ReplaceAll(b, "\"", "\\\"") + "\";" }
+func Quote(a, b string) string {
+	return "\"" + a + "\" -> \"" + strings.ReplaceAll(strings.ReplaceAll(b, "\\", "\\\\"), "\"", "\\\"") + "\";"
+}
+
+// quotes escaped, backslashes not: a name ending in a backslash swallows the closing quote
+func QuoteHalf(b string) string { return "\"" + strings.ReplaceAll(b, "\"", "\\\"") + "\";" }
 
 func Touch(rows []Row) int {
 	n := 0
